@@ -172,12 +172,81 @@ EcVerdict(e) ==
             v == WsEdOffered(e, C, pq, pub)
         IN WithModel(e, v, Against(e.api, v, e.exc, WsEdReturned(e, C, pq, pub)))
 
+\* ------------------------------------------------------------------ generate()
+\* A generated key is judged on its RETURNED components alone: the invariants of its type, the requested size, the FIPS 186-4 sizes and margins.
+\* GenRefusal: the statement of C05 speaks of the keys the library hands out; whether generate() may refuse a request is only decided for the
+\* requests its documentation admits (RSA: bits >= 1024, e odd >= 3; DSA: bits in {1024, 2048, 3072}, a valid domain of a FIPS 186-4 size pair;
+\* ECC: every supported curve).  ElGamal.generate documents no domain: a ValueError is never a verdict there (GenElGamalRefusal).
+GenBad(v) == IF v.st = "ok" \/ v.st = "soft" THEN "ok" ELSE IF v.st = "witness" THEN "harness: witness refused for the generated key (" \o v.why \o ")"
+             ELSE "generated key violates: " \o v.why
+GenOutcome(e, documented, keyverdict) ==
+   IF e.exc \notin {"none", "ValueError"} THEN "generate() raised " \o e.exc
+   ELSE IF e.exc = "ValueError" THEN (IF documented THEN "generate() refused a request its documentation admits" ELSE "ok")
+   ELSE keyverdict
+GenRsaVerdict(e) ==
+   LET k == e.key
+       documented == e.bits >= 1024 /\ IsNat(e.e) /\ KI!BnIsOdd(e.e.m) /\ KI!BnCmp(e.e.m, <<2>>) > 0
+   IN GenOutcome(e, documented,
+         IF ~k.priv THEN "generated key violates: it has a private part"
+         ELSE FirstBad(<<IF IsNat(e.e) /\ k.e = e.e.m THEN "ok" ELSE "generated key violates: the public exponent is the requested one",
+                         GenBad(KI!KiRsaPrivate(k.n, k.e, k.d, k.p, k.q, k.u, TRUE, e.kw, e.deep)),
+                         GenBad(KI!KiRsaCrt(k.d, k.p, k.q, k.dp, k.dq, k.invq, e.kw)),
+                         GenBad(KI!KiRsaMargins(e.bits, k.n, k.p, k.q, k.d))>>))
+GenDsaSizes == {<<1024, 160>>, <<2048, 224>>, <<2048, 256>>, <<3072, 256>>}            \* FIPS 186-4 4.2
+GenDsaVerdict(e) ==
+   LET k == e.key  o == e.dom
+       dom == IF ~e.hasdomain THEN Ok ELSE IF AnyNeg(o, {"p", "q", "g"}) THEN KI!KiNo("a negative component")
+              ELSE KI!KiDsa(o.p.m, o.q.m, o.g.m, <<1>>, <<>>, FALSE, e.w, FALSE)           \* the domain alone: y = 1 stands for "any public value"
+       sized(p, q) == KI!BnBitLen(p) = e.bits /\ <<KI!BnBitLen(p), KI!BnBitLen(q)>> \in GenDsaSizes
+       documented == e.bits \in {1024, 2048, 3072} /\ dom.st = "ok" /\ (e.hasdomain => sized(o.p.m, o.q.m))
+   IN IF dom.st = "witness" THEN "harness: witness refused (" \o dom.why \o ")"
+      ELSE GenOutcome(e, documented,
+         IF dom.st = "no" THEN "generate accepted domain parameters violating: " \o dom.why
+         ELSE IF ~k.priv THEN "generated key violates: it has a private part"
+         ELSE FirstBad(<<IF e.hasdomain THEN FirstBad(<<Same("p", k.p, o.p.m), Same("q", k.q, o.q.m), Same("g", k.g, o.g.m)>>) ELSE "ok",
+                         GenBad(KI!KiDsa(k.p, k.q, k.g, k.y, k.x, TRUE, e.kw, e.deep)),
+                         IF KI!BnBitLen(k.p) # e.bits THEN "generated key violates: the modulus has exactly the requested size"
+                         ELSE IF ~sized(k.p, k.q) THEN "generated key violates: the sizes of p and q are a pair of FIPS 186-4" ELSE "ok">>))
+GenElGamalRefusal == FALSE
+GenEgVerdict(e) ==
+   LET k == e.key IN
+   GenOutcome(e, GenElGamalRefusal,
+      IF ~k.priv THEN "generated key violates: it has a private part"
+      ELSE FirstBad(<<GenBad(KI!KiElGamal(k.p, k.g, k.y, k.x, TRUE, e.kw, e.deep)),
+                      IF KI!BnBitLen(k.p) # e.bits THEN "generated key violates: the modulus has exactly the requested size" ELSE "ok">>))
+GenEcVerdict(e) ==
+   LET C == KI!EcCurve(e.curve)  k == e.key  Q == [x |-> k.x, y |-> k.y] IN
+   GenOutcome(e, TRUE,
+      IF ~k.priv THEN "generated key violates: it has a private part"
+      ELSE IF C.kind = "ws" THEN
+           (IF ~KI!BnIsNat(k.d) \/ ~KI!KiEcScalarOk(C, k.d) THEN "generated key violates: 1 <= d <= order-1"
+            ELSE LET pub == KI!KiEcPublicOf(C, k.d, e.links) IN
+                 IF pub.st # "ok" THEN ChainClause(pub) ELSE IF pub.pt # Q THEN "generated key violates: the public point is the private scalar times G"
+                 ELSE GenBad(KI!KiEcPoint(C, Q, e.kwq)))
+      ELSE IF Len(k.seed) # KI!KiSeedLen(C) THEN "generated key violates: the seed has the length the curve defines"
+      ELSE IF C.kind = "ed" THEN
+           (IF k.d # KI!KiEdScalar(C, k.seed) THEN "generated key violates: d is the clamped hash of the seed (RFC 8032 5.1.5 / 5.2.5)"
+            ELSE LET pub == KI!KiEcPublicOf(C, k.d, e.links) IN
+                 IF pub.st # "ok" THEN ChainClause(pub) ELSE IF pub.pt # Q THEN "generated key violates: the public point is the private scalar times G"
+                 ELSE GenBad(KI!KiEcPoint(C, Q, e.kwq)))
+      ELSE (IF k.d # KI!KiMtScalar(C, k.seed) THEN "generated key violates: d is the RFC 7748 decoding of the seed"
+            ELSE IF ~KI!EcIsElem(k.x, C.p) THEN "generated key violates: coordinate in range"
+            ELSE IF ~KI!EcMontIsX(C, KI!KiMtPublicOf(C, k.d), k.x) THEN "generated key violates: the public value is the private scalar times G"
+            ELSE IF KI!KiMtLowOrder(C, k.x) THEN "generated key violates: the public value is not a point of small order" ELSE "ok"))
+GenVerdict(e) ==
+   CASE e.what = "rsa" -> GenRsaVerdict(e)
+     [] e.what = "dsa" -> GenDsaVerdict(e)
+     [] e.what = "elgamal" -> GenEgVerdict(e)
+     [] e.what = "ecc" -> GenEcVerdict(e)
+     [] OTHER -> "harness: unknown kind of generate record"
+
 \* ------------------------------------------------------------------ one verdict per record
 Judge(e) ==
    CASE e.fam = "rsa" -> RsaVerdict(e)
      [] e.fam = "dsa" -> DsaVerdict(e)
      [] e.fam = "elgamal" -> EgVerdict(e)
      [] e.fam = "ec" -> EcVerdict(e)
+     [] e.fam = "gen" -> GenVerdict(e)
      [] OTHER -> "harness: unknown family"
 VARIABLES t
 TInit == t = 1
